@@ -3,11 +3,11 @@ CONSTANTS
   MinBodies = 1
   MaxBodies = 2
   JTypes <- AllJ
-  Axes <- Ax2
-  Offsets <- K_Off1
+  Axes <- Ax13
+  Offsets <- D_OffAx1
   Rots <- R0
   Anchors <- K_Anc1
-  SitePos <- K_Site1
+  SitePos <- V000
   SiteRots <- K_SRot1
   Masses <- One1
   Inertias <- K_Inr1
@@ -18,7 +18,7 @@ CONSTANTS
   Damps <- One0
   GCs <- One0
   TCoefs <- D_TC2
-  Qs <- K_Q2
+  Qs <- One0
   Vs <- D_V1
   As <- One1
   Gravs <- K_G1
@@ -27,7 +27,11 @@ CONSTANTS
   TenRanges <- Rng0
   TenDamps <- One0
   TenArms <- D_TArm1
+  TenZero <- BothTz
+  SpPairs <- D_Sp1
+  SpArms <- D_SpArm
   Level = 2
+  Tie = FALSE
   Rand = FALSE
 INVARIANT TypeOK
 INVARIANT FramesProper
@@ -40,4 +44,6 @@ INVARIANT KineticIsQuadratic
 INVARIANT BiasAtRestIsGravity
 INVARIANT SlideBiasVelFree
 INVARIANT VelIsRecursive
+INVARIANT SpatialJacIsDerivative
+INVARIANT SpatialMassOK
 CHECK_DEADLOCK FALSE
